@@ -156,7 +156,40 @@ func (x *Exec) loopHeader(st *State, fr *Frame, b *ssa.BasicBlock, prev *ssa.Bas
 	fr.preSt = append(fr.preSt, st.fork())
 	fr.preFr = append(fr.preFr, f2)
 	f2.preSt, f2.preFr = fr.preSt, fr.preFr
+	var savedGen map[int]*Term
+	if fr.ct != nil && len(fr.ct.forget[l.ordinal]) > 0 {
+		// the invariants must hold of the forgotten variables whatever their values are: prove the
+		// entry obligations with their compound values generalised to fresh variables
+		savedGen = st.gen
+		st.gen = map[int]*Term{}
+		for k, t := range savedGen {
+			st.gen[k] = t
+		}
+		var gen func(v Value, name string)
+		gen = func(v Value, name string) {
+			switch t := v.(type) {
+			case *Term:
+				if len(t.args) > 0 {
+					if _, done := st.gen[t.id]; !done {
+						st.gen[t.id] = freshVar("gen$"+name, t.sort)
+					}
+				}
+			case *Tuple:
+				for i, e := range t.el {
+					gen(e, fmt.Sprintf("%s.%d", name, i))
+				}
+			}
+		}
+		for _, name := range fr.ct.forget[l.ordinal] {
+			if ee, ok := f2.env[name]; ok && !ee.addr {
+				gen(ee.v, name)
+			}
+		}
+	}
 	evalInvs(st, f2, "entry", false)
+	if savedGen != nil || (fr.ct != nil && len(fr.ct.forget[l.ordinal]) > 0) {
+		st.gen = savedGen
+	}
 	if fr.ct != nil && x.dry == 0 {
 		env := x.frameEnv(f2)
 		for k, cl := range fr.ct.entries[l.ordinal] {
@@ -263,7 +296,8 @@ func (x *Exec) loopHeader(st *State, fr *Frame, b *ssa.BasicBlock, prev *ssa.Bas
 		for _, name := range fr.ct.forget[l.ordinal] {
 			ee, ok := fr.env[name]
 			if !ok || ee.addr {
-				fail("forget: no plain Go variable %s at loop %d of %s", name, l.ordinal, fr.fn.Name())
+				// not a register-allocated variable here: nothing to abstract (forgetting less is sound)
+				continue
 			}
 			nv := x.havocLike(st, ee.v, nil, fr.fn.Name()+"$"+name)
 			if tp, isT := ee.v.(*Tuple); isT {
